@@ -173,6 +173,19 @@ def check(case, ctx):
     if not common.is_ds(res):
         ctx.v(ID, "dataset-type", "%s returned %s" % (label, type(res).__name__))
         return klass
+    # Dataset.interp_like with a template carrying the new axis
+    tmpl = da.DimArray(np.zeros(len(new)), axes=[da.Axis(arr, d)])
+    res2, exc2 = ctx.call("ds.interp_like(template on %r)" % d, lambda: ds.interp_like(tmpl, **{k_: v_ for k_, v_ in kw.items() if k_ != 'issorted'}), operands=(ds, tmpl))
+    if exc2 is not None:
+        ctx.v(ID, "dataset-interp_like-raised:" + type(exc2).__name__, "ds.interp_like(template) for %s raised %s: %s" % (label, type(exc2).__name__, str(exc2)[:150]))
+    elif common.is_ds(res2):
+        for name, s in specs.items():
+            mm = model.from_spec(s)
+            e = np_interp_axis(mm, mm.dims.index(d), new, left, right) if d in mm.dims else mm
+            if name in res2.keys():
+                msg = model.compare(common.as_ma(dict.__getitem__(res2, name)), e, "ds.interp_like(template) for %s: variable %r" % (label, name), **tol)
+                if msg:
+                    ctx.v(ID, "dataset-interp_like-variable", msg)
     for name, s in specs.items():
         mm = model.from_spec(s)
         e = np_interp_axis(mm, mm.dims.index(d), new, left, right) if d in mm.dims else mm
